@@ -777,6 +777,25 @@ done:
 							}
 						}
 					}
+				case Keyed:
+					keys := tv.Keys()
+					sort.Strings(keys)
+					matches := make([]bool, len(keys))
+					for i, k := range keys {
+						vv, _ := tv.ValueForKey(k)
+						matches[i] = tf.matchWithRoot(vv, data)
+					}
+					for i, k := range keys {
+						if matches[i] {
+							vv, _ := tv.ValueForKey(k)
+							if nv, changed := modifier(vv); changed {
+								tv.SetValueForKey(k, nv)
+								if one && changed {
+									break done
+								}
+							}
+						}
+					}
 				case gen.Array:
 					matches := make([]bool, len(tv))
 					for i, vv := range tv {
